@@ -16,7 +16,7 @@ SQRTF = z3.Function("SQRTF", s64, s64)
 
 
 def contract_term(y, r):
-    """0 <= y < 2^47:  r >= 0, r < 2^32, (r-1)^2 < y*2^16 < (r+1)^2   (66-bit arithmetic is exact for r < 2^32)"""
+    """0 <= y < 2^48:  r >= 0, r < 2^32, (r-1)^2 < y*2^16 < (r+1)^2   (66-bit arithmetic is exact for r < 2^32)"""
     Wd = 66
     V = zx(y, Wd) << 16
     Rr = zx(z3.Extract(32, 0, r), Wd)
@@ -25,10 +25,10 @@ def contract_term(y, r):
 
 def sqrt_stub(ctx, args):
     """fixedmath::sqrt kept out of line and replaced by its contract (proved for both algorithms by C13):
-       y < 0 -> NaN ; 0 <= y < 2^47 -> r >= 0, (r-1)^2 < y*2^16 < (r+1)^2 ; r is a function of y"""
+       y < 0 -> NaN ; 0 <= y < 2^48 -> r >= 0, (r-1)^2 < y*2^16 < (r+1)^2 ; r is a function of y"""
     y = args[0]
     r = SQRTF(y)
-    ctx.assume(z3.Implies(z3.And(y >= 0, y < val(1 << 47)), contract_term(y, r)))
+    ctx.assume(z3.Implies(z3.And(y >= 0, y < val(1 << 48)), contract_term(y, r)))
     ctx.assume(z3.Implies(y < 0, r == val(NAN)))
     return r
 
@@ -50,7 +50,7 @@ def table_stub(ylo, yhi):
         inr = z3.And(y >= val(max(ylo, 0)), y <= val(yhi))
         alts = [z3.And(y == val(yk), r >= val(a), r <= val(b)) for yk, a, b in rows]
         ctx.assume(z3.Implies(inr, z3.Or(alts)))
-        ctx.assume(z3.Implies(z3.And(y >= 0, y < val(1 << 47), z3.Not(inr)), contract_term(y, r)))
+        ctx.assume(z3.Implies(z3.And(y >= 0, y < val(1 << 48), z3.Not(inr)), contract_term(y, r)))
         ctx.assume(z3.Implies(y < 0, r == val(NAN)))
         return r
     return stub
@@ -73,7 +73,7 @@ def mono_lemmas(calls):
         for j in range(len(apps)):
             if i != j:
                 (y1, r1), (y2, r2) = apps[i], apps[j]
-                lem.append(z3.Implies(z3.And(y1 >= 0, y2 >= 0, y1 <= y2, y2 < val(1 << 47)), r1 <= r2))
+                lem.append(z3.Implies(z3.And(y1 >= 0, y2 >= 0, y1 <= y2, y2 < val(1 << 48)), r1 <= r2))
     return lem
 
 
